@@ -362,6 +362,11 @@ def r3_state(chk):
                 continue
             if ci.name == "Substructure":
                 chk.note(f"{ci.name}.{a} lives in __dict__ of a view class; it travels with the inherited state (slots + __dict__)")
+            filtered_out = includes_dict and not _dict_key_kept(gs.node, a)
+            if filtered_out and not (overrides or transient):
+                chk.fail("C06.R3", key, f"{ci.module.relpath}:{node.lineno}", f"{ci.name} stores `self.{a}` in __dict__, and __getstate__ copies __dict__ through a filter that "
+                         f"drops the key `{a}`: pickle / copy.deepcopy lose {a} and the copy raises AttributeError on first use")
+                continue
             chk.decide(includes_dict or overrides or transient, "C06.R3", key, f"{ci.module.relpath}:{node.lineno}",
                        f"{ci.name}.{a} is part of the pickled state" + (" (transient cursor)" if transient else ""),
                        f"{ci.name} stores `self.{a}` in __dict__ (the class has no __slots__) but the inherited __getstate__ returns slots only: "
@@ -569,3 +574,25 @@ def r7_ctor_forwarding(chk):
                            + (" - copy_atoms falls back to False, so join / concatenate adopt and re-parent the sources' atoms" if p == "copy_atoms" else ""))
             else:
                 chk.decide(has_kwds, "C06.R7", key, init.where(sup[0]), f"`{p}` travels in **kwds", f"{ci.name}.__init__ neither names `{p}` nor forwards **kwds")
+
+
+def _dict_key_kept(gs_node, attr):
+    """__getstate__ copies __dict__ into the state: is the entry `attr` among what is copied?  A comprehension over __dict__ with a
+    filter is evaluated for that key (sa/truth.py); a filter the table cannot evaluate counts as keeping it."""
+    from ..truth import Unknown, evaluate
+
+    for comp in [x for x in ast.walk(gs_node) if isinstance(x, (ast.DictComp, ast.ListComp, ast.GeneratorExp, ast.SetComp))]:
+        for g in comp.generators:
+            if "__dict__" not in norm(g.iter) and "vars(self)" not in norm(g.iter):
+                continue
+            names = [n.id for n in ast.walk(g.target) if isinstance(n, ast.Name)]
+            if not names:
+                continue
+            bound = {names[0]: attr}
+            for c in g.ifs:
+                try:
+                    if not evaluate(c, lambda n: NotImplemented, bound):
+                        return False
+                except Unknown:
+                    pass
+    return True
